@@ -219,6 +219,8 @@ func RunProperty(id, tier string) int {
 		}
 		x := NewExec(prog, opt, notes)
 		x.deadline = time.Now().Add(unitTimeLimit)
+		x.cpuStart, x.cpuBudget = cpuNow(), unitCPULimit
+		unitCPUStart.Store(int64(x.cpuStart))
 		r := &unitRun{spec: us, x: x}
 		runs = append(runs, r)
 		fn := prog.FuncByName(us.Func)
